@@ -487,7 +487,7 @@ def parse_pagexml_files(pagexml_files: List[str],
     for pagexml_file in pagexml_files:
         try:
             yield parse_pagexml_file(pagexml_file, encoding=encoding)
-        except (KeyError, AttributeError, IndexError, ValueError, TypeError):
+        except (KeyError, AttributeError, IndexError, ValueError, TypeError, expat.ExpatError):
             if ignore_errors:
                 print(f'Skipping file with parser error: {pagexml_file}')
                 continue
@@ -560,6 +560,10 @@ def parse_pagexml_files_from_archive(archive_file: str, ignore_errors: bool = Fa
             yield scan
         except expat.ExpatError:
             if pagefile_info['archived_filename'].endswith('.xml') is False:
+                continue
+            elif ignore_errors is True:
+                if silent_mode is False:
+                    print(f"Skipping file with parser error: {pagefile_info['archived_filename']}")
                 continue
             else:
                 print('Error parsing file', pagefile_info['archived_filename'])
